@@ -25,6 +25,8 @@ type c16case struct {
 	Format    string `json:"format"`
 	Prior     string `json:"prior_record,omitempty"` // "" | utc-logger | local-layout-logger : a record emitted just before by another logger
 	FlagPath  string `json:"flag_path,omitempty"`    // "" = SetFlags | "scope" = a SaveFlagsAndMod scope toggling the date/time flags has just ended
+	Sec       int64  `json:"unix_sec,omitempty"`     // used instead of Instant for years outside 0..9999
+	Nsec      int64  `json:"unix_nsec,omitempty"`
 }
 
 // reference table flag-combination -> layout, written from the documented
@@ -71,6 +73,9 @@ func c16eval(cas c16case) *Violation {
 	time.Local = time.FixedZone("verif-local", -(7*3600 + 30*60))
 	loc := c16loc(cas.Zone)
 	t0, err := time.Parse(time.RFC3339Nano, cas.Instant)
+	if cas.Instant == "" {
+		t0, err = time.Unix(cas.Sec, cas.Nsec), nil // years outside 0..9999 have no RFC 3339 text that parses back
+	}
 	if err != nil {
 		return nil
 	}
@@ -97,7 +102,7 @@ func c16eval(cas c16case) *Violation {
 	}
 	rec := &recorder{}
 	w := &plainW{"w", rec}
-	if cas.Prior != "" && cas.Prior != "same-logger-first" {
+	if cas.Prior != "" && cas.Prior != "same-logger-first" && cas.Prior != "child-of-configured-parent" {
 		// another logger formats a record first (same pools): its time settings must not leak
 		o := slog.New("other").SetWriter(w).SetErrorWriter(w).SetLevel(slog.AlwaysLevel)
 		if cas.Prior == "utc-logger" {
@@ -109,6 +114,11 @@ func c16eval(cas c16case) *Violation {
 		rec.reset()
 	}
 	l := slog.New("lg").SetWriter(w).SetErrorWriter(w).SetLevel(slog.AlwaysLevel)
+	if cas.Prior == "child-of-configured-parent" {
+		// the logger is a child of a parent that has a layout and a zone mode of its own: nothing was chosen for the child
+		p := slog.New("parent").SetTimeFormat(time.RFC850).SetUTCMode(cas.LocalTime) // (the mode that disagrees with what the flags say)
+		l = p.New("lg").SetWriter(w).SetErrorWriter(w).SetLevel(slog.AlwaysLevel)
+	}
 	c16format(l, cas.Format)
 	if cas.Prior == "same-logger-first" {
 		// the logger itself logs before its time settings are chosen, and nobody else logs in between
@@ -226,6 +236,10 @@ func c16eval(cas c16case) *Violation {
 		e := want.Format(lay)
 		exp = append(exp, e)
 		if e == text {
+			if y := want.Year(); y < 0 || y > 9999 {
+				c16last = text
+				return nil // package time cannot parse years outside 0..9999 back: the text was compared with Format
+			}
 			// round trip: parsing the text with the layout gives back the instant to the layout's precision
 			back, err := time.Parse(lay, text)
 			if err != nil {
@@ -246,7 +260,7 @@ var c16last string
 func c16cases(thorough bool, emit func(c16case)) {
 	zones := []string{"UTC", "+05:30", "-08:00", "+14:00", "America/New_York", "Europe/Lisbon", "-03:30", "-09:30", "-00:44"}
 	var instants []time.Time
-	for _, y := range []int{1, 1970, 2024, 9999} {
+	for _, y := range []int{1, 1970, 2024, 9999, 12345, -50} {
 		for _, md := range [][2]int{{1, 1}, {2, 29}, {12, 31}} {
 			for _, hms := range [][3]int{{0, 0, 0}, {23, 59, 59}, {12, 30, 1}} {
 				for _, ns := range []int{0, 1, 123456000, 999999999, 999999500} {
@@ -282,6 +296,9 @@ func c16cases(thorough bool, emit func(c16case)) {
 									continue
 								}
 								cas := c16case{Instant: t.In(c16loc(z)).Format(time.RFC3339Nano), Zone: z, Flags: flags, LocalTime: lt, UTCMode: um, Layout: lay, Format: f}
+								if y := t.In(c16loc(z)).Year(); y < 0 || y > 9999 || t.UTC().Year() < 0 || t.UTC().Year() > 9999 {
+									cas.Instant, cas.Sec, cas.Nsec = "", t.Unix(), int64(t.Nanosecond())
+								}
 								emit(cas)
 								// a rotating variant: a prior record of another logger, or flags that went through a save/restore scope
 								k := ii + zi + li + fi + flags
@@ -292,7 +309,9 @@ func c16cases(thorough bool, emit func(c16case)) {
 									if !thorough {
 										sel = j / 3
 									}
-									switch sel % 4 {
+									switch sel % 5 {
+									case 4:
+										v.Prior = "child-of-configured-parent"
 									case 0:
 										v.Prior = "utc-logger"
 									case 1:
